@@ -517,6 +517,7 @@ def run(ctx):
                     "class": rows.get(c["id"], {}).get("obs1", {}).get("cls"), "outliers": rows.get(c["id"], {}).get("obs1", {}).get("outliers")}
                    for c in cases[:6]])
     dist["failing_conclusion"] = [{"label": m["label"], "variant": c["variant"], "why": why, "contract": contr} for c, m, why, contr in bad_conclusion][:40]
+    dist["failing_member_keys"] = sorted({"c18:" + m["label"] for c, m, why, contr in bad_conclusion} | {"c18:" + m["label"] for c, m, w in bad_invariance})
     dist["failing_contract_only"] = [{"label": m["label"], "variant": c["variant"], "why": why} for c, m, why in bad_contract
                                      if not any(c is b[0] for b in bad_conclusion)][:40]
     ctx.coverage["input_distribution"] = dist
